@@ -233,6 +233,10 @@ def check_c11(pid, tier, seed, replay):
         v.cov["forged_message_combos_distinct"] = len(forged)
         v.cov["forged_message_twins"] = sum(forged.values())
         v.cov["signed_valid_twins"] = sum(n for k, n in grid.items() if _valid_combo(k))
+        relayed = sum(n for k, n in classes.items() if k.endswith("/relayed-by-contract-for-its-tx-origin"))
+        v.cov["relayed_by_contract_for_its_tx_origin_twins"] = relayed
+        if relayed < 8 and not v.violations:
+            raise Infra("the run executed only %d signed messages relayed by a contract for their own tx origin" % relayed)
         v.cov["distinct_nontrivial"] = sum(n for k, n in classes.items() if k.endswith("/ok")) + sum(forged.values())
         v.cov["rule"] = ("twin pairs (precompile call on one clone, native messages on the other, same committed state) accepted by "
                          "TraceStakingCpc.tla; non-trivial = pairs whose call changed state (per method/via in classes) plus forged "
@@ -252,6 +256,6 @@ def check_c11(pid, tier, seed, replay):
 
 
 def _valid_combo(k):
-    # grid/<md>/<caller>/<signer>/<chain>/<tamper>
+    # grid/<md>/<caller>/<signer>/<chain>/<tamper>/<tx origin>
     p = k.split("/")
     return p[1] == p[2] == p[3] and p[4] == "ours" and p[5] == "none"
